@@ -89,18 +89,50 @@ example : (∀ p ∈ exParams.spans, p ≤ exEntries.length) ∧
 
 /-! ### 3. the whole operation -/
 
+/-- **concat_eq_spec_room.** The operation equals its specification under the exact room condition of the batch loop:
+    every span output has at most `M` bytes, `M ≤ V` and `V/2 - 1 + M ≤ V` for `V = dest_chunksize * chunksize_mult`
+    (a batch continues only while fewer than `V/2` bytes are written, so the next span finds at least `V - (V/2 - 1)`
+    free bytes; the first span of a batch finds `V`). For every column, every list of span boundaries inside it and
+    every `src_chunksize ≥ 1`, `Session.apply_spans_concat` (with the D25 and NC16a repairs) terminates without an
+    out-of-range access and leaves in `dest.indices` / `dest.values` exactly the offsets and the bytes of `concatSpec`. -/
+theorem concat_eq_spec_room (sep delim : α) (entries : List (List α)) (spans : List Nat) (srcChunk destChunk mult : Nat)
+    (hbound : ∀ p ∈ spans, p ≤ entries.length) (hsc : 1 ≤ srcChunk) (M : Nat)
+    (hM : ∀ o ∈ concatSpec sep delim entries spans, o.length ≤ M)
+    (hMV : M ≤ destChunk * mult) (hV : destChunk * mult / 2 - 1 + M ≤ destChunk * mult) :
+    applySpansConcat .repaired sep delim spans (offsets entries) entries.flatten srcChunk destChunk mult
+      = .ok ⟨storedIndices (concatSpec sep delim entries spans), (concatSpec sep delim entries spans).flatten⟩ := by
+  obtain ⟨st, hrun, hdest⟩ := runBatches_spec sep delim spans entries srcChunk (destChunk * mult) hbound hsc M hM hMV hV
+  simp only [applySpansConcat, hrun, hdest]
+
 /-- **concat_eq_spec.** For every column, every list of span boundaries inside it, every `src_chunksize ≥ 1` and every
     `dest_chunksize`, `chunksize_mult` such that no span output exceeds half of `dest_chunksize * chunksize_mult`:
     `Session.apply_spans_concat` (with the D25 and NC16a repairs) terminates without an out-of-range access and leaves
     in `dest.indices` / `dest.values` exactly the offsets and the bytes of `concatSpec` — one CSV line of the non-empty
-    entries per span. -/
+    entries per span.
+
+    Reading "large enough to hold one span's output" literally (`o.length ≤ dest_chunksize * chunksize_mult`) the
+    statement would be
+
+      theorem concat_eq_spec_whole_buffer … (hroom : ∀ o ∈ concatSpec sep delim entries spans, o.length ≤ destChunk * mult) :
+          applySpansConcat .repaired … = .ok ⟨storedIndices …, ….flatten⟩
+
+    and that is FALSE for the code as it is (finding NC16b, `Witness.C16.nc16b_span_longer_than_half_buffer`): the
+    kernel never checks the room left before writing a span, it only ends a batch once half the buffer is used.
+    `concat_eq_spec_room` above is the exact condition under which the loop is safe; this theorem is its instance for
+    the half-buffer condition of DESIGN.md. -/
 theorem concat_eq_spec (sep delim : α) (entries : List (List α)) (spans : List Nat) (srcChunk destChunk mult : Nat)
     (hbound : ∀ p ∈ spans, p ≤ entries.length) (hsc : 1 ≤ srcChunk)
     (hroom : ∀ o ∈ concatSpec sep delim entries spans, o.length ≤ destChunk * mult / 2) :
     applySpansConcat .repaired sep delim spans (offsets entries) entries.flatten srcChunk destChunk mult
-      = .ok ⟨storedIndices (concatSpec sep delim entries spans), (concatSpec sep delim entries spans).flatten⟩ := by
-  obtain ⟨st, hrun, hdest⟩ := runBatches_spec sep delim spans entries srcChunk (destChunk * mult) hbound hsc hroom
-  simp only [applySpansConcat, hrun, hdest]
+      = .ok ⟨storedIndices (concatSpec sep delim entries spans), (concatSpec sep delim entries spans).flatten⟩ :=
+  concat_eq_spec_room sep delim entries spans srcChunk destChunk mult hbound hsc (destChunk * mult / 2) hroom
+    (by omega) (by omega)
+
+/-- `concat_eq_spec_room` beyond the half-buffer condition: the longest output has 12 bytes, the buffer 21 (`21/2 = 10`) -/
+example : (∀ o ∈ concatSpec (44 : Nat) 34 exEntries [0, 1, 4, 5], o.length ≤ 12) ∧ 12 ≤ 21 * 1 ∧ 21 * 1 / 2 - 1 + 12 ≤ 21 * 1 ∧
+    ¬ (∀ o ∈ concatSpec (44 : Nat) 34 exEntries [0, 1, 4, 5], o.length ≤ 21 * 1 / 2) ∧
+    applySpansConcat .repaired (44 : Nat) 34 [0, 1, 4, 5] (offsets exEntries) exEntries.flatten 2 21 1
+      = .ok ⟨[0, 1, 13, 15], [97, 34, 98, 44, 99, 34, 44, 34, 100, 34, 34, 101, 34, 195, 169]⟩ := by decide
 
 /-- three batches (`src_chunksize = 1`), tight value buffer (the longest output has 12 bytes, the buffer 24) -/
 example : (∀ p ∈ [0, 1, 4, 5], p ≤ exEntries.length) ∧
@@ -158,7 +190,8 @@ theorem concat_terminates (sep delim : α) (entries : List (List α)) (spans : L
     (hbound : ∀ p ∈ spans, p ≤ entries.length) (hsc : 1 ≤ srcChunk)
     (hroom : ∀ o ∈ concatSpec sep delim entries spans, o.length ≤ valueCap / 2) :
     ∃ st, runBatches .repaired sep delim spans (offsets entries) entries.flatten srcChunk valueCap = .ok st := by
-  obtain ⟨st, hrun, _⟩ := runBatches_spec sep delim spans entries srcChunk valueCap hbound hsc hroom
+  obtain ⟨st, hrun, _⟩ := runBatches_spec sep delim spans entries srcChunk valueCap hbound hsc (valueCap / 2) hroom
+    (by omega) (by omega)
   exact ⟨st, hrun⟩
 
 example : (runBatches .repaired (44 : Nat) 34 [0, 1, 4, 5] (offsets exEntries) exEntries.flatten 1 24).map (·.calls)
